@@ -470,4 +470,109 @@ Section Cell.
       + eapply bound_add; [apply (bound_zero eps 0); reflexivity|exact B|].
         rewrite cell_value_app, P2. ring.
   Qed.
+
+  (* the cell's entry of a good position map is the one under its key *)
+  Lemma entries_nokey m :
+    (forall x, In x m -> entry_ok x) -> (forall x, In x m -> fst x <> pos_key a c) -> entries_qty m == 0.
+  Proof.
+    induction m as [|x m IH]; intros He Hk; cbn [entries_qty]; [reflexivity|].
+    rewrite IH; [|intros y Hy; apply He; right; exact Hy|intros y Hy; apply Hk; right; exact Hy].
+    destruct (ematch x) eqn:Em; [|ring]. exfalso.
+    pose proof (He _ (or_introl eq_refl)) as (K & Ha' & _).
+    unfold ematch in Em. apply (key_match _ _ Ha') in Em. apply (Hk x (or_introl eq_refl)). congruence.
+  Qed.
+
+  Lemma entries_qty_posq m : keys_sorted m -> (forall x, In x m -> entry_ok x) -> entries_qty m == posq m.
+  Proof.
+    induction m as [|x m IH]; intros Hs He; [reflexivity|].
+    inversion Hs as [|? ? Hs' Hall]; subst.
+    assert (He' : forall y, In y m -> entry_ok y) by (intros y Hy; apply He; right; exact Hy).
+    pose proof (He _ (or_introl eq_refl)) as (K & Ha' & _).
+    cbn [entries_qty]. destruct (ematch x) eqn:Em.
+    - pose proof Em as Em0. unfold ematch in Em. apply (key_match _ _ Ha') in Em.
+      rewrite entries_nokey; [|exact He'|].
+      + unfold posq, getd, pos_get. destruct x as [k [[a' c'] q]]. cbn [fst snd] in *. cbn [sm_get].
+        rewrite K, <- Em, str_eqb_refl. ring.
+      + intros y Hy E. rewrite Forall_forall in Hall. specialize (Hall y Hy). unfold key_lt in Hall.
+        rewrite E, K, Em in Hall. exact (str_cmp_lt_irrefl _ Hall).
+    - rewrite (IH Hs' He'). unfold posq, getd, pos_get. destruct x as [k [[a' c'] q]]. cbn [fst snd] in *. cbn [sm_get].
+      rewrite str_eqb_neq; [ring|]. intros E. rewrite K in E. symmetry in E. apply (key_match _ _ Ha') in E.
+      unfold ematch in Em. cbn [fst snd] in Em. congruence.
+  Qed.
+
+  (* ---------------------------------------------------------- one day *)
+  Lemma valuate_day_inv s d s' d' :
+    process_day (valuate_proc v) s d = ROk (s', d') ->
+    exists ts s2 txns',
+      val_adjustments v (d_date d) (v_prev s) (d_normalized d) (v_qty s) = ROk ts /\
+      fold_txns (valuate_proc v) (mkVal (v_prev s) (d_normalized d) (v_qty s)) (d_txns d ++ ts) = ROk (s2, txns') /\
+      s' = mkVal (d_normalized d) (v_cur s2) (v_qty s2) /\
+      d_txns d' = txns' /\ d_normalized d' = d_normalized d /\ d_date d' = d_date d.
+  Proof.
+    unfold process_day. cbn [valuate_proc pr_day_start pr_price pr_open pr_close pr_day_end].
+    unfold val_day_start.
+    destruct (val_adjustments v (d_date d) (v_prev s) (d_normalized d) (v_qty s)) as [ts| |]; cbn [rbind fst snd]; try discriminate.
+    cbn [set_txns d_txns d_date d_prices d_opens d_asserts d_closes d_normalized].
+    destruct (fold_txns (valuate_proc v) (mkVal (v_prev s) (d_normalized d) (v_qty s)) (d_txns d ++ ts)) as [[s2 txns']| |] eqn:Efold;
+      cbn [rbind fst snd]; try discriminate.
+    rewrite fold_asserts_none by reflexivity. cbn [rbind]. unfold val_day_end. cbn [d_normalized].
+    intros H. injection H as <- <-. exists ts, s2, txns'. split; [reflexivity|]. split; [exact Efold|]. repeat split; reflexivity.
+  Qed.
+
+  Definition day_in (d : day) : Prop := Forall txn_in (d_txns d) /\ cur_ok (d_normalized d).
+
+  Lemma day_cell s d s' d' :
+    process_day (valuate_proc v) s d = ROk (s', d') ->
+    day_in d -> good (v_qty s) -> cur_ok (v_prev s) ->
+    v_prev s' = d_normalized d /\ d_normalized d' = d_normalized d /\ good (v_qty s') /\
+    posq (v_qty s') == posq (v_qty s) + cell_qty a c (day_postings d) /\
+    Qabs (cell_value a c (day_postings d')
+          - (posq (v_qty s') * price_value (d_normalized d) c - posq (v_qty s) * price_value (v_prev s) c))
+      <= inject_Z (cell_count a c (day_postings d')) * eps.
+  Proof.
+    intros H [Hin Hcur] Hg Hprev.
+    destruct (valuate_day_inv _ _ _ _ H) as (ts & s2 & txns' & Eadj & Efold & -> & Etx & En & _).
+    destruct Hg as (Hs & He & Hp).
+    destruct (adj_cell _ _ _ _ _ Eadj He Hp Hprev Hcur) as [Fz Badj].
+    destruct (fold_txns_app _ _ _ _ _ _ Efold) as (s1 & o1 & o2 & E1 & E2 & ->).
+    rewrite (fold_txns_zero v ts s1 Fz) in E2. injection E2 as <- <-.
+    destruct (fold_txns_cell _ _ _ _ E1 Hin (conj Hs (conj He Hp)) Hcur) as (B1 & B2 & B3 & B4 & B5 & B6).
+    cbn [v_prev v_cur v_qty] in *.
+    rewrite (entries_qty_posq _ Hs He) in Badj.
+    split; [reflexivity|]. split; [exact En|]. split; [exact B3|].
+    unfold day_postings. rewrite Etx. fold (txns_postings (d_txns d)). fold (txns_postings (o1 ++ ts)).
+    split; [exact B5|].
+    unfold txns_postings in *. rewrite map_app, concat_app, cell_count_app, B4.
+    eapply bound_add; [exact B6|exact Badj|].
+    rewrite cell_value_app, B5. ring.
+  Qed.
+
+  (* ---------------------------------------------------------- all days *)
+  Lemma days_cell ds : forall s s' ds',
+    process_days (valuate_proc v) s ds = ROk (s', ds') ->
+    Forall day_in ds -> good (v_qty s) -> cur_ok (v_prev s) ->
+    v_prev s' = last_normalized (v_prev s) ds /\ good (v_qty s') /\ cur_ok (v_prev s') /\
+    map d_normalized ds' = map d_normalized ds /\
+    posq (v_qty s') == posq (v_qty s) + cell_qty a c (days_postings ds) /\
+    Qabs (cell_value a c (days_postings ds')
+          - (posq (v_qty s') * price_value (v_prev s') c - posq (v_qty s) * price_value (v_prev s) c))
+      <= inject_Z (cell_count a c (days_postings ds')) * eps.
+  Proof.
+    induction ds as [|d ds IH]; intros s s' ds' H Hin Hg Hprev; cbn [process_days] in H.
+    - injection H as <- <-. split; [reflexivity|]. split; [exact Hg|]. split; [exact Hprev|]. split; [reflexivity|].
+      split; [cbn; ring|]. apply bound_zero. cbn. ring.
+    - inversion Hin as [|? ? Hd Hrest]; subst.
+      destruct (process_day (valuate_proc v) s d) as [[s1 d1]| |] eqn:E1; cbn [rbind fst snd] in H; try discriminate.
+      destruct (process_days (valuate_proc v) s1 ds) as [[s2 ds2]| |] eqn:E2; cbn [rbind fst snd] in H; try discriminate.
+      injection H as <- <-.
+      destruct (day_cell _ _ _ _ E1 Hd Hg Hprev) as (A1 & A2 & A3 & A4 & A5).
+      assert (Hprev1 : cur_ok (v_prev s1)) by (rewrite A1; apply Hd).
+      destruct (IH _ _ _ E2 Hrest A3 Hprev1) as (B1 & B2 & B3 & B4 & B5 & B6).
+      split; [rewrite B1, A1; reflexivity|]. split; [exact B2|]. split; [exact B3|].
+      split; [cbn [map]; rewrite A2, B4; reflexivity|].
+      unfold days_postings in *. cbn [map concat].
+      split; [rewrite B5, A4, cell_qty_app; ring|].
+      rewrite cell_count_app. eapply bound_add; [exact A5|exact B6|].
+      rewrite cell_value_app, A1. ring.
+  Qed.
 End Cell.
